@@ -255,7 +255,20 @@ def r_merge(repo, tier):
     ret = [r for r in ast.walk(fn) if isinstance(r, ast.Return) and isinstance(r.value, ast.Name)]
     if not ret:
         raise AnalysisError("R-XFER: merge() does not return a name")
-    acc = ret[-1].value.id
+    # the accumulator is what the function returns at its end (the last top-level statement); every other return is checked below
+    last = fn.body[-1]
+    acc = last.value.id if isinstance(last, ast.Return) and isinstance(last.value, ast.Name) else ret[-1].value.id
+    cfg0 = CFG(fn, may_raise=lambda x: False)
+    heads = [cfg0.stmt_node[id(l)] for l in loops[:2]]
+    for r in [x for x in ast.walk(fn) if isinstance(x, ast.Return)]:
+        nd = cfg0.stmt_node.get(id(r))
+        if nd is None:
+            continue
+        skipped = [k + 1 for k, h in enumerate(heads) if nd.id in cfg0.reachable_from(cfg0.entry, avoid={h.id})]
+        same = isinstance(r.value, ast.Name) and r.value.id == acc
+        out.inst("%s::%s@%s" % (f.key, norm(r), "end" if r is last else "early"), {"return": norm(r), "returns_merged_map": same, "loops_that_can_be_skipped": skipped})
+        if skipped or not same:
+            out.report(MAPPER, f.dqual, "%s skips loop %s" % (norm(r), skipped or "-"), r.lineno, "merge can return `%s` without having run the transfer loop(s) %s over its input maps: locations of the skipped map (or the 'unchanged' alternative of a map that wrote nothing) are missing from the result" % (norm(r.value) if r.value is not None else "None", skipped or "(returns another object than the merged map %s)" % acc))
     maps = []  # the (assumed) input maps
     for s in fn.body:
         if isinstance(s, ast.Assign) and isinstance(s.targets[0], ast.Name) and isinstance(s.value, ast.Call) and isinstance(s.value.func, ast.Attribute) and s.value.func.attr == "assume":
